@@ -1,4 +1,6 @@
 #!/bin/sh
+# runs on changed trees must not overwrite the committed evidence of the unchanged tree
+export VERIF_EVIDENCE=/verif/build/evidence-changed-tree
 # tools/try_patch.sh <patch.diff> <prop> [<prop>...] : apply a patch to /repo, run the checks, undo it straight afterwards
 p="$1"; shift
 git -C /repo apply "$p" || { echo "patch does not apply"; exit 3; }
